@@ -85,7 +85,9 @@ def _table(ctx) -> None:
     main_seen = False
     for r in rets:
         t = r.term
-        if not (t[0] == "call" and t[1] == ("name", "Table") and len(t[2]) == 1 and not t[3] and t[2][0][0] == "obj"):
+        # (the table's own name may be handed on: Table(cols, name=self._name))
+        own_name = t[0] == "call" and (not t[3] or (len(t[3]) == 1 and kw(t, "name") == ("attr", ("param", f.params[0]), "_name")))
+        if not (t[0] == "call" and t[1] == ("name", "Table") and len(t[2]) == 1 and own_name and t[2][0][0] == "obj"):
             problems.append(f"`return {sh(t, 50)}` is not a Table of the rebuilt columns")
             continue
         rc = t[2][0]
@@ -435,7 +437,7 @@ MUTANTS = [
          new="			indices.sort(key=key_fn)\n			if rev:\n				indices.reverse()", rules=["a.permutation", "b.stable-keys"]),
     dict(id="vector-sorted-drops-name", module=_V, old="		new_vector = Vector(new_values, dtype=self._dtype, name=self._name)",
          new="		new_vector = Vector(new_values, dtype=self._dtype)", rules=["a.permutation"]),
-    dict(id="sort-renames-columns-lower", module=_T, old="			new_cols.append(Vector(new_data, dtype=col._dtype, name=col._name))\n\n		return Table(new_cols)",
-         new="			new_cols.append(Vector(new_data, dtype=col._dtype, name=str(col._name).lower()))\n\n		return Table(new_cols)", rules=["a.permutation"]),
+    dict(id="sort-renames-columns-lower", module=_T, old="			new_cols.append(Vector(new_data, dtype=col._dtype, name=col._name))\n\n		return Table(new_cols, name=self._name)",
+         new="			new_cols.append(Vector(new_data, dtype=col._dtype, name=str(col._name).lower()))\n\n		return Table(new_cols, name=self._name)", rules=["a.permutation"]),
     dict(id="twin-rename-indices", module=_T, twin=True, edits=[(_T, "indices", "order", 51)]),
 ]
